@@ -12,6 +12,7 @@ RULE = ('inputs: rand() ; rand(a, b) for integer-valued a <= b given as source l
         'zero, up to 10^30 wide ; rand(list) and shuffle(list) for host and program-built lists (length 1-50, duplicates, '
         'nested, aliased elements). Each input is drawn DRAWS times under a per-case seed of the module random. A case is '
         'non-trivial when every draw was checked by the range/identity oracle; distinct = distinct (form, a, b | list shape).')
+RULE += ' Also: integer-valued decimals with trailing fractional zeros and computed bounds, bounds that change at one call site (map(ns, n => rand(-n, n)), caching parser), the extreme outputs of the underlying generator for rand(), and arbitrary earlier calls (incl. evals without a names mapping that bind rand/shuffle).'
 ASSUMPTIONS = ['draws come from the module-level `random` generator, which the harness seeds per case',
                '"integer-valued number" includes bool, int, integer-valued float and Decimal (any exponent)']
 FINDINGS = {}
